@@ -384,6 +384,38 @@ theorem wantTransition_data {st : DecState} {b : Body} (h : wantTransition st b 
   simp only [Bool.and_eq_true] at h
   exact h.1.1
 
+/-- Replacing the gain keeps the invariant / the run predicate (the gain is only range-constrained). -/
+theorem DecInv.withGain {st : DecState} (h : DecInv st) (g : Int) (hg : -32768 ≤ g ∧ g ≤ 32767) :
+    DecInv { st with decode_gain := g } :=
+  ⟨h.fs, h.ch, h.api, h.nca, h.isr, h.nci, h.ps, h.sch, h.toc, h.pm, h.pr, h.silkReady, hg, h.lpd⟩
+
+theorem Good.withGain {st0 : DecState} {cap0 : Int} {r : Run} (h : Good st0 cap0 r) (g : Int)
+    (hg : -32768 ≤ g ∧ g ≤ 32767) : Good st0 cap0 (r.setSt { r.st with decode_gain := g }) :=
+  ⟨h.inv.withGain g hg, h.fs, h.ch, h.log⟩
+
+/-- The call as the code makes it since 7e7e38ec — gain saved, cleared, restored (`gain0Call`) — meets the contract of
+    the transition call whenever the plain recursive call does; the caller's gain is back afterwards (`FrameRel.gain`). -/
+theorem gain0Call_transOk {st0 : DecState} {cap0 u : Int} {inner : Ptr → Int → Run → Res'}
+    (h : TransOk st0 cap0 u inner) : TransOk st0 cap0 u (gain0Call inner) := by
+  intro r n hg hu hn
+  have hg0 := hg.withGain 0 (by omega)
+  have hu0 : Units (r.setSt { r.st with decode_gain := 0 }).st u := hu.congr rfl
+  obtain ⟨v, r', h1, h2, h3⟩ := h (r.setSt { r.st with decode_gain := 0 }) n hg0 hu0 hn
+  have hbuf : transBuf (r.setSt { r.st with decode_gain := 0 }).st = transBuf r.st := rfl
+  rw [hbuf] at h1
+  refine ⟨v, r'.setSt { r'.st with decode_gain := r.st.decode_gain }, ?_, ?_, ?_⟩
+  · unfold gain0Call; simp only [h1]
+  · exact h2.withGain _ hg.inv.gain
+  · exact ⟨h3.fs, h3.ch, rfl, h3.sch, h3.bw, h3.mode, h3.fsz, h3.lpd, h3.api, h3.nca, h3.isr, h3.nci⟩
+
+/-- The inner call sees gain 0 (so its own gain pass `stepGain` is skipped) and the same log / call counter. -/
+theorem gain0Call_inner (inner : Ptr → Int → Run → Res') (p : Ptr) (n : Int) (r : Run) :
+    (gain0Call inner p n r).1 = (inner p n (r.setSt { r.st with decode_gain := 0 })).1 ∧
+    (gain0Call inner p n r).2.log = (inner p n (r.setSt { r.st with decode_gain := 0 })).2.log ∧
+    (gain0Call inner p n r).2.k = (inner p n (r.setSt { r.st with decode_gain := 0 })).2.k ∧
+    (gain0Call inner p n r).2.st.decode_gain = r.st.decode_gain :=
+  ⟨rfl, rfl, rfl, rfl⟩
+
 /-- A (possibly skipped) transition concealment call. -/
 theorem transStep_spec {st0 : DecState} {cap0 : Int} {trans : Ptr → Int → Run → Res'} {b : Body} {r : Run} {u : Int}
     (c : Prop) [Decidable c] (hg : Good st0 cap0 r) (hu : Units r.st u)
@@ -394,7 +426,7 @@ theorem transStep_spec {st0 : DecState} {cap0 : Int} {trans : Ptr → Int → Ru
   have hupos := hu.pos
   split
   · rename_i hc
-    obtain ⟨v, r', h1, h2, h3⟩ := htr hc r (min (F5 r.st) b.audiosize) hg hu (by rw [hu.f5]; omega)
+    obtain ⟨v, r', h1, h2, h3⟩ := gain0Call_transOk (htr hc) r (min (F5 r.st) b.audiosize) hg hu (by rw [hu.f5]; omega)
     unfold transCall
     rw [h1]
     exact ⟨r', rfl, h2, h3⟩
